@@ -448,7 +448,7 @@ def no_spurious_space(R, ctx):
                 if c02.lua_fuses(a, b):
                     continue
                 n += 1
-                if c02.eval_char_fn(thir.body_of(fn), params, a, b):
+                if c02.char_pred(ctx, fn, params, a, b):
                     cls = ("digit" if a.isdigit() else "letter" if a.isalpha() else a, "digit" if b.isdigit() else "letter" if b.isalpha() else b)
                     spurious.setdefault(cls, []).append(a + b)
     except ValueError as e:
